@@ -191,6 +191,31 @@ def derived(check, tier, seed):
 
 
 
+def characters(check, tier):
+    """wrapping is about wcwidth and nothing else: characters that some other classification singles out (combining marks that DO take
+    columns, wide whitespace, variation selectors, emoji modifiers, jamo, format characters) wrap like any character of their width"""
+    from bounded.common import CHAR_CLASSES
+    s = Suite(check, "C11.characters", f"{len(CHAR_CLASSES)} characters of different classes (spacing combining marks, wide blanks, joiners, selectors, emoji, "
+              "jamo ...) behind a full line, at the start of a run, doubled, behind a double-width character, in one run and cut into two "
+              "runs at every position x columns 2, 3: the statement's oracle", bound="5 texts x every 2-run cut x 2 widths")
+    for ch in CHAR_CLASSES:
+        if wcwidth(ch) < 0:
+            continue
+        for txt in ("aa" + ch + "a", ch + "a" + ch, W + ch + "a", ch * 3, "a" + ch + ch + "aa", "aaa" + ch):
+            for cut in range(0, len(txt)):
+                f = FmtStr(Chunk(txt, A1)) if cut == 0 else FmtStr(Chunk(txt[:cut], A1), Chunk(txt[cut:], A2))
+                for cols in (2, 3):
+                    s.case((ch, txt, cut, cols), sample=dict(char=f"U+{ord(ch):04X}", cols=cols) if len(s.samples) < 2 else None)
+                    try:
+                        lines = list(f.width_aware_splitlines(cols))
+                        d = judge(f, cols, lines)
+                    except Exception as e:      # noqa: BLE001
+                        d = f"raised {type(e).__name__}: {e}"
+                    if d:
+                        s.fail("C11.width_aware_splitlines.characters", dict(char=f"U+{ord(ch):04X}", text=txt, cut=cut, cols=cols), d[:300])
+    s.done()
+
+
 def long_inputs(check, tier):
     from bounded.common import long_values
     s = Suite(check, "C11.long", "values with thousands of runs / characters wrapped at 2, 3 and 80 columns: the statement's oracle", bound="<= 6000 characters")
@@ -213,4 +238,5 @@ def run(check, tier, seed):
     for c in SP.GENERATOR_CONTRACTS:
         verify(c, tier, check)
     bounded(check, tier)
+    characters(check, tier)
     derived(check, tier, seed)
